@@ -56,6 +56,17 @@ func ReachUnder(fn *ssa.Function, eval CondFn) *Live {
 	return l
 }
 
+// PredLive reports whether the edge from the i-th predecessor of b into b is live.
+func (l *Live) PredLive(b *ssa.BasicBlock, i int) bool {
+	pred := b.Preds[i]
+	for si, s := range pred.Succs {
+		if s == b && l.Edges[Edge{pred, si}] {
+			return true
+		}
+	}
+	return false
+}
+
 // LiveValues expands phis along live edges only and returns the non-phi values v may take.
 func (l *Live) LiveValues(v ssa.Value) []ssa.Value {
 	var out []ssa.Value
